@@ -32,7 +32,7 @@ type frame struct {
 func (f frame) w(axis int) float64 { return f.max[axis] - f.min[axis] }
 
 func genFrame(t *rapid.T) frame {
-	kind := rapid.SampledFrom([]string{"unit8", "decimal", "shifted", "float", "fine", "decimal", "nonsquare", "shifted", "unit8", "degenerate", "fine", "float"}).Draw(t, "frame")
+	kind := rapid.SampledFrom([]string{"unit8", "decimal", "shifted", "float", "fine", "decimal", "nonsquare", "shifted", "unit8", "degenerate", "fine", "float", "inverted"}).Draw(t, "frame")
 	origins := []float64{0, 0, -4, -8, 3, -1000, 500.5}
 	sizes := []float64{8, 16, 4, 2, 1, 0.5}
 	f := frame{name: kind}
@@ -61,6 +61,18 @@ func genFrame(t *rapid.T) frame {
 			}
 		}
 		f.min, f.max = orb.Point{ox, oy}, orb.Point{ox + w, oy + h}
+	case "inverted":
+		// an empty tree bound (min > max on one or both axes): every point is outside,
+		// every Add must be rejected and every query answers "nothing"
+		f.min, f.max = orb.Point{0, 0}, orb.Point{8, 8}
+		switch rapid.IntRange(0, 2).Draw(t, "inv") {
+		case 0:
+			f.min[0], f.max[0] = 8, 0
+		case 1:
+			f.min[1], f.max[1] = 4, -4
+		default:
+			f.min, f.max = orb.Point{1, 1}, orb.Point{-1, -1} // orb's own "empty bound" sentinel
+		}
 	case "decimal":
 		// non-dyadic decimal / third / seventh edges at several scales and offsets: the
 		// midline formulas (lo+hi)/2, lo+(hi-lo)/2, lo/2+hi/2 round differently here
@@ -99,7 +111,11 @@ func (f frame) in(t *rapid.T, axis int) float64 {
 	}
 	den := rapid.SampledFrom([]int{2, 2, 4, 4, 8, 8, 16, 1024}).Draw(t, "den")
 	i := rapid.IntRange(0, den).Draw(t, "i")
-	return lo + (hi-lo)*float64(i)/float64(den)
+	v := lo + (hi-lo)*float64(i)/float64(den)
+	if v == 0 && rapid.IntRange(0, 2).Draw(t, "negzero") == 0 {
+		v = math.Copysign(0, -1) // -0 on an edge or midline at 0: equal to +0 for every comparison the property makes
+	}
+	return v
 }
 
 // mid computes the centre of [lo, hi] by one of the plausible formulas.
@@ -237,7 +253,7 @@ func genOp(t *rapid.T, f frame, prof [3]int) Op {
 			}
 			op.MaxK = rapid.SampledFrom([]string{"", "", "abs", "abs", "hit"}).Draw(t, "maxk")
 			if op.MaxK != "" {
-				s := f.w(0) + f.w(1)
+				s := math.Abs(f.w(0)) + math.Abs(f.w(1))
 				switch mk := rapid.IntRange(0, 3).Draw(t, "mk"); {
 				case mk == 0:
 					op.Max = 0
@@ -248,9 +264,9 @@ func genOp(t *rapid.T, f frame, prof [3]int) Op {
 				default:
 					// a lattice length along x (axis-parallel neighbours sit exactly at this distance)
 					den := rapid.SampledFrom([]int{2, 4, 8, 16}).Draw(t, "mden")
-					op.Max = gen.F(f.w(0) * float64(rapid.IntRange(0, den).Draw(t, "mi")) / float64(den))
+					op.Max = gen.F(math.Abs(f.w(0)) * float64(rapid.IntRange(0, den).Draw(t, "mi")) / float64(den))
 					if f.w(0) == 0 {
-						op.Max = gen.F(f.w(1) * float64(rapid.IntRange(0, den).Draw(t, "mj")) / float64(den))
+						op.Max = gen.F(math.Abs(f.w(1)) * float64(rapid.IntRange(0, den).Draw(t, "mj")) / float64(den))
 					}
 				}
 				op.Sel2 = sel("sel2")
@@ -314,7 +330,7 @@ func flushClasses(in info) {
 
 // TestPropHistories: random histories of 0..500 operations.
 func TestPropHistories(t *testing.T) {
-	stats.Assume("coordinates are finite; dyadic classes: multiples of 2^-11 with |v| <= 2^11 (all distance arithmetic exact, equality demanded); float classes (random and decimal/third/seventh edges): |v| <= 1e5, reference metric planar.DistanceSquared, minima and ranks compared within 1e-9 relative")
+	stats.Assume("coordinates are finite; dyadic classes: multiples of 2^-11 with |v| <= 2^11 (all distance arithmetic exact, equality demanded); float classes (random and decimal/third/seventh edges): |v| <= 1e5, reference metric the harness's own float64 dx*dx+dy*dy (no library distance function on the oracle side), minima and ranks compared within 1e-9 relative")
 	stats.Assume("k of k-nearest is in 0..n+2 (or 0..8); the distance limit, when given, is >= 0")
 	stats.Assume("stored values are non-nil *item pointers; Add(nil) may return anything but must not change the contents; filters are pure functions of the pointer")
 	stats.Assume("bound queries use boxes with min <= max on both axes (degenerate boxes included)")
